@@ -68,6 +68,15 @@ def _replay_one(rec):
     r = impl.call(f.valid, s)
     if r["out"] != "ok" or bool(r["value"]) != rec["last"]:
         bad.append(("last-window-verdict", rec["last"], impl.jsonable(r.get("value", r))))
+    if 4 in rec["s"] and not bad:
+        # the same string with its foreign symbols written as a line feed, a blank, a lower-case letter, ... (one of impl.TRICKY)
+        s2 = impl.dna_tricky(rec["s"], len(rec["s"]) + 3 * rec["k"] + sum(rec["s"]))
+        r = impl.call(f.valid, s2, only_last=False)
+        if r["out"] != "ok" or bool(r["value"]) != rec["whole"]:
+            bad.append(("whole-sequence-verdict", rec["whole"], {"string": s2, "got": impl.jsonable(r.get("value", r))}))
+        r = impl.call(f.valid, s2)
+        if r["out"] != "ok" or bool(r["value"]) != rec["last"]:
+            bad.append(("last-window-verdict", rec["last"], {"string": s2, "got": impl.jsonable(r.get("value", r))}))
     return bad
 
 
@@ -129,7 +138,7 @@ def record(rng, ncfg, nstr):
                 s = [rng.randrange(4) for _ in range(L)]
                 if L:
                     s[rng.randrange(L)] = 4
-            st = impl.dna(s, salt=j)
+            st = impl.dna(s, salt=j) if j % 3 else impl.dna_tricky(s, j // 3)
             r1 = impl.call(f.valid, st, only_last=False)
             r2 = impl.call(f.valid, st)
             cases.append({"cfg": idx, "ctor": "ok", "s": s,
